@@ -121,9 +121,18 @@ namespace
         explicit TwoPart(uint64_t id) : a(id), b(id), pad{} {}
     };
     using IP = const int*;     // a plain pointer payload (what an array or a function would decay to)
-    constexpr int NT = 14;
+    // a payload that itself holds an any (a list node): assigning a node's successor to the any that holds the node reads
+    // from inside the object the assignment is about to replace
+    struct Nest
+    {
+        uint64_t id;
+        xtl::any next;
+        unsigned char pad[8];
+        explicit Nest(uint64_t v);
+    };
+    constexpr int NT = 15;
     const char* const tnames[NT] = {"int", "S1_inplace", "S2_inplace", "LG_heap", "TMV_heap", "AL_heap", "string_heap", "shared_ptr_inplace", "reflike_inplace", "NK_heap",
-                                    "reflike_heap", "node_heap", "twopart_heap", "int_pointer_inplace"};
+                                    "reflike_heap", "node_heap", "twopart_heap", "int_pointer_inplace", "nest_heap"};
     inline bool is_tracked_type(int k) { return (k >= 1 && k <= 5) || k == 9; }
     static_assert(sizeof(RLH) > 2 * sizeof(void*) && sizeof(Node) > 2 * sizeof(void*) && sizeof(TwoPart) > 2 * sizeof(void*), "heap payloads must not fit the in-place buffer");
     inline int tag_of_type(int k) { return 10 + k; }
@@ -141,6 +150,9 @@ namespace
     std::string sstr(uint64_t id) { return "a-string-long-enough-for-the-heap-" + std::to_string(id); }
     uint64_t sid(const std::string& s) { return s.size() > 34 ? std::strtoull(s.c_str() + 34, nullptr, 10) : 0; }
 
+    inline Nest::Nest(uint64_t v) : id(v), next(sstr(v + 1)), pad{} {}
+    static_assert(sizeof(Nest) > 2 * sizeof(void*), "Nest must not fit the in-place buffer");
+
     template <int K> struct TypeOf;
     template <> struct TypeOf<0> { using type = int; static int make(uint64_t id) { return static_cast<int>(id); } static uint64_t id(const int& v) { return static_cast<uint64_t>(v); } static void set(int& v, uint64_t id) { v = static_cast<int>(id); } };
     template <> struct TypeOf<1> { using type = S1; static S1 make(uint64_t id) { return S1(id); } static uint64_t id(const S1& v) { return v.id; } static void set(S1& v, uint64_t id) { v.id = id; } };
@@ -154,6 +166,9 @@ namespace
     template <> struct TypeOf<11> { using type = Node; static Node make(uint64_t id) { return Node(id); } static uint64_t id(const Node& v) { return v.kids.empty() ? v.id : 888888; } static void set(Node& v, uint64_t id) { v.id = id; } };
     template <> struct TypeOf<12> { using type = TwoPart; static TwoPart make(uint64_t id) { return TwoPart(id); } static uint64_t id(const TwoPart& v) { return v.a.v == v.b.v ? v.a.v : 999999; } static void set(TwoPart& v, uint64_t id) { v.a.v = id; v.b.v = id; } };
     template <> struct TypeOf<13> { using type = IP; static IP make(uint64_t id) { return &g_cells[id % NCELLS]; } static uint64_t id(const IP& v) { return static_cast<uint64_t>(v - g_cells); } static void set(IP& v, uint64_t id) { v = &g_cells[id % NCELLS]; } };
+    template <> struct TypeOf<14> { using type = Nest; static Nest make(uint64_t id) { return Nest(id); }
+                                    static uint64_t id(const Nest& v) { const std::string* s = xtl::any_cast<std::string>(&v.next); return (s && sid(*s) == v.id + 1) ? v.id : 999997; }
+                                    static void set(Nest& v, uint64_t id) { v.id = id; v.next = sstr(id + 1); } };
     template <> struct TypeOf<9> { using type = NK; static NK make(uint64_t id) { return NK(id); } static uint64_t id(const NK& v) { return v.id; } static void set(NK& v, uint64_t id) { v.id = id; } };
     template <> struct TypeOf<7> { using type = SP; static SP make(uint64_t id) { return std::make_shared<int>(static_cast<int>(id)); } static uint64_t id(const SP& v) { return v ? static_cast<uint64_t>(*v) : 0; } static void set(SP& v, uint64_t id) { v = std::make_shared<int>(static_cast<int>(id)); } };
 
@@ -174,7 +189,8 @@ namespace
         case 10: f(std::integral_constant<int, 10>()); break;
         case 11: f(std::integral_constant<int, 11>()); break;
         case 12: f(std::integral_constant<int, 12>()); break;
-        default: f(std::integral_constant<int, 13>()); break;
+        case 13: f(std::integral_constant<int, 13>()); break;
+        default: f(std::integral_constant<int, 14>()); break;
         }
     }
 
@@ -354,19 +370,36 @@ namespace
         {
             int t = st.actor % 3;
             int src = static_cast<int>(st.c % 3);
-            std::string var = std::string(mname(t)) + "_from_" + (src == t ? "self" : mname(src));
+            // the target holds a node: every other time the source is the any INSIDE that node (a = std::move(node.next))
+            bool inner = !model[t].empty && model[t].type == 14 && (st.b & 1);
+            std::string var = std::string(mname(t)) + "_from_" + (inner ? "any_inside_own_content" : src == t ? "self" : mname(src));
             Scope sc(*this, st, move ? "move_assign" : "copy_assign", var);
             MA pre = model[t], pre_src = model[src];
             bool threw = false;
             uint64_t nc0 = g_nonconst_copies;
             try
             {
+                xtl::any& from = inner ? xtl::any_cast<Nest&>(slot[t].get()).next : slot[src].get();
                 Active a;
-                if (move) slot[t].get() = std::move(slot[src].get());
-                else slot[t].get() = static_cast<const xtl::any&>(slot[src].get());
+                if (move) slot[t].get() = std::move(from);
+                else slot[t].get() = static_cast<const xtl::any&>(from);
             }
             catch (const Injected&) { threw = true; }
             catch (const std::bad_alloc&) { threw = true; }
+            if (inner)
+            {
+                no_nonconst_copy(nc0, "assignment of an any");
+                SIM_PROBE("assigned_from_any_inside_own_content");
+                if (threw)
+                {
+                    if (!fstate().fired) viol("exception", "unexpected", "assignment threw without an injected fault");
+                    if (move) viol("model", "noexcept", "move assignment threw");
+                }
+                else { model[t].type = 6; model[t].id = pre.id + 1; }      // what the node's successor held
+                ++run.changing;
+                check_all();
+                return;
+            }
             no_nonconst_copy(nc0, move ? "move assignment of an any" : "copy assignment of an any");
             if (src == t) SIM_PROBE(move ? "self_move_assignment" : "self_copy_assignment");
             if (threw)
